@@ -378,13 +378,6 @@ fn payload(m: &mut Msg, kind: &str, w: &[&str], pre: &[&'static str], cks: &mut 
                 }
                 add("groundspeed", Exp::Num(gs, 1e-9 * gs.max(1.0)), "vel-groundspeed");
                 add("track", Exp::Num(trk, 1e-9 * 360.0), "vel-track");
-                if st == 2 {
-                    // recorded deviation: the components are decoded with the subsonic LSB (1 kt), so the speed
-                    // reported is exactly a quarter of the encoded one; only that value is filed under the known
-                    // finding, any other wrong speed stays `vel-groundspeed`
-                    let quarter = gs / 4.0;
-                    quirks.push(("groundspeed", Some((Exp::Num(quarter, 1e-9 * quarter.max(1.0)), "vel-supersonic-scale"))));
-                }
             }
             expect_tail09(&mut add, svr, vr, sg, g);
         }
@@ -1107,11 +1100,27 @@ pub fn run(out: &mut Out, rng: &mut Rng, thorough: bool) {
             cases.push(velg(rng, 1, od, o, dir, v, None));
         }
     }
-    // supersonic ground speed (subtype 2, LSB 4 kt)
+    // supersonic ground speed (subtype 2, LSB 4 kt): judged like subtype 1 — random pairs, the corners with all
+    // sign pairs, and each component through all 1023 codes (+ "no information") with the other random
     for _ in 0..300 {
         let (a, b) = (rng.range(0, 1022), rng.range(0, 1022));
         let (d1, d2) = (rng.below(2), rng.below(2));
         cases.push(velg(rng, 2, d1, a, d2, b, None));
+    }
+    for dew in 0..2u64 {
+        for dns in 0..2u64 {
+            for &(a, b) in &[(0i64, 0i64), (0, 1), (1, 0), (1, 1), (1022, 0), (0, 1022), (1022, 1022), (1021, 1022)] {
+                cases.push(velg(rng, 2, dew, a, dns, b, None));
+            }
+        }
+    }
+    for dir in 0..2u64 {
+        for v in -1..1023i64 {
+            let o = rng.range(0, 1022);
+            let od = rng.below(2);
+            cases.push(velg(rng, 2, dir, v, od, o, None));
+            cases.push(velg(rng, 2, od, o, dir, v, None));
+        }
     }
     // vertical rate: 2 x (511 codes + none); GNSS/baro difference: 2 x (127 codes + none)
     for sv in 0..2u64 {
@@ -1354,10 +1363,12 @@ pub fn run(out: &mut Out, rng: &mut Rng, thorough: bool) {
         }
     }
 
-    // ---- thorough: the full square of subtype-1 velocities through the oracle (no correspondence lines:
-    //      the Lean side proves this square in `vel_gs_rt`; the model is compared on the lattice above)
+    // ---- thorough: the full square of subtype-1 and subtype-2 velocities through the oracle (no correspondence
+    //      lines: the Lean side proves these squares in `vel_gs_rt` / `vel_gs_rt_supersonic`; the model is compared
+    //      on the lattice and the sweeps above)
     if thorough {
         let mut n = 0u64;
+        for (st, lsb) in [(1u64, 1i64), (2, 4)] {
         for dew in 0..2u64 {
             for dns in 0..2u64 {
                 for a in 0..1023i64 {
@@ -1367,7 +1378,7 @@ pub fn run(out: &mut Out, rng: &mut Rng, thorough: bool) {
                         m.put(6, 3, 5);
                         m.put(9, 24, 0x4840d6);
                         m.put_me(1, 5, 19);
-                        m.put_me(6, 3, 1);
+                        m.put_me(6, 3, st);
                         m.put_me(14, 1, dew);
                         m.put_me(15, 10, (a + 1) as u64);
                         m.put_me(25, 1, dns);
@@ -1377,8 +1388,8 @@ pub fn run(out: &mut Out, rng: &mut Rng, thorough: bool) {
                         let ok = (|| {
                             let msg = rs1090::prelude::Message::try_from(f.as_slice()).ok()?;
                             let v = serde_json::to_value(&msg).ok()?;
-                            let ew = (a * if dew == 1 { -1 } else { 1 }) as f64;
-                            let ns = (b * if dns == 1 { -1 } else { 1 }) as f64;
+                            let ew = (lsb * a * if dew == 1 { -1 } else { 1 }) as f64;
+                            let ns = (lsb * b * if dns == 1 { -1 } else { 1 }) as f64;
                             let gs = ew.hypot(ns);
                             let mut trk = ew.atan2(ns).to_degrees();
                             if trk < 0.0 {
@@ -1389,15 +1400,16 @@ pub fn run(out: &mut Out, rng: &mut Rng, thorough: bool) {
                             Some((g - gs).abs() <= 1e-9 * gs.max(1.0) && (t - trk).abs() <= 1e-9 * 360.0)
                         })();
                         if ok != Some(true) {
-                            let w = vec![s("velg"), s(17), s(5), s(0x4840d6), s(1), s(0), s(0), s(0), s(dew), s(a), s(dns), s(b), s(0), s(0), s(-1), s(0), s(-1)];
+                            let w = vec![s("velg"), s(17), s(5), s(0x4840d6), s(st), s(0), s(0), s(0), s(dew), s(a), s(dns), s(b), s(0), s(0), s(-1), s(0), s(-1)];
                             out.fail("vel-groundspeed", &format!("enc {}", w.join(" ")), &format!("frame {}", hex(&f)));
                         }
                     }
                 }
             }
         }
+        }
         out.stat_n("velocity-square-oracle-only", n);
-        out.exhaustive.push("BDS 0,9 subtype 1: all 2x1023 x 2x1023 velocity code pairs through the real decoder (oracle)".into());
+        out.exhaustive.push("BDS 0,9 subtypes 1 and 2: all 2x1023 x 2x1023 velocity code pairs of each through the real decoder (oracle)".into());
     }
-    out.exhaustive.push("all 2^11 25-ft altitude codes and all 1280 Gillham steps in BDS 0,5, DF4 and DF20; all 4096 squawks in DF5, DF21 and BDS 6,1; 36 characters x 8 positions (and all 64 codes x 8 positions for the model) in BDS 0,8 and BDS 2,0; every 1/8-kt surface speed up to 200 kt (all movement codes); 128 x 2 surface tracks; 1023 codes of each velocity component x 2 directions; 2 x 511 vertical rates; 2 x 127 GNSS/baro differences; 1024 headings and 1023 airspeeds of subtypes 3 and 4; BDS 6,2 selected altitudes on the 100 ft grid, 511 pressure codes, 512 headings; BDS 4,0 altitudes on the 100 ft grid up to 45 000 ft and 4096 pressure codes; every valid code of each BDS 5,0 / 6,0 field".into());
+    out.exhaustive.push("all 2^11 25-ft altitude codes and all 1280 Gillham steps in BDS 0,5, DF4 and DF20; all 4096 squawks in DF5, DF21 and BDS 6,1; 36 characters x 8 positions (and all 64 codes x 8 positions for the model) in BDS 0,8 and BDS 2,0; every 1/8-kt surface speed up to 200 kt (all movement codes); 128 x 2 surface tracks; 1023 codes of each velocity component x 2 directions (subtypes 1 and 2); 2 x 511 vertical rates; 2 x 127 GNSS/baro differences; 1024 headings and 1023 airspeeds of subtypes 3 and 4; BDS 6,2 selected altitudes on the 100 ft grid, 511 pressure codes, 512 headings; BDS 4,0 altitudes on the 100 ft grid up to 45 000 ft and 4096 pressure codes; every valid code of each BDS 5,0 / 6,0 field".into());
 }
